@@ -442,6 +442,8 @@ impl<'tcx> D<'tcx> {
                 self.exprs(args);
                 self.p(",");
                 self.ety(e);
+                self.p(",");
+                self.ety(recv);
                 self.p("]");
                 if m {
                     self.p("]");
